@@ -61,6 +61,13 @@ def cases(rng, tier, X):
             cont += hist[-rng.randint(1, 4):]
             if rng.random() < 0.5:
                 cont.append(F.query(rng.choice(F.STATIONS), F.OWN, 5))
+        if rng.random() < 0.4:
+            # ... or with commands carrying the sequence numbers a freshly started responder has never seen but a cleared record
+            # holds: 0 (what the Reset writes), the last numbers of the history - from any station, before any Discover
+            m = rng.choice(F.STATIONS)
+            for q in rng.sample([0, 0, 1, 5, 7, 65535], 3):
+                cont.append(rng.choice([F.query(m, F.OWN, q), F.query(m, F.OWN, q), F.qltlv(m, F.OWN, q, rng.choice([0x0e, 0x11, 0x13]), 0),
+                                        F.emit(m, F.OWN, q, [(1, 0, F.STATIONS[2], F.STATIONS[3])])]))
         for _ in range(rng.randint(1, 3)):
             cont += F.session(rng, F.OWN, n=rng.randint(2, 14))
         mapper = rng.choice(F.STATIONS)
